@@ -233,6 +233,9 @@ func checkSendInputWorker(c *Ctx, r *Report) {
 	// overwritten with the exact one on the ExactMatchInput edge (or an equivalent phi)
 	okSel := false
 	boundName := func(v ssa.Value) string {
+		if ct, ok := v.(*ssa.ChangeType); ok { // a named function type
+			v = ct.X
+		}
 		if mc, ok := v.(*ssa.MakeClosure); ok {
 			if f, ok := mc.Fn.(*ssa.Function); ok {
 				return strings.TrimSuffix(f.Name(), "$bound")
@@ -271,6 +274,32 @@ func checkSendInputWorker(c *Ctx, r *Report) {
 		fe, fn1 := guardExact(fuzzyStore)
 		ee, en1 := guardExact(exactStore)
 		okSel = !fe && fn1 == 0 && ee && en1 == 1
+	}
+	// ... or assigned in the two arms of an if/else on the option
+	if !okSel && fuzzyStore != nil && exactStore != nil && fuzzyStore.Addr == exactStore.Addr {
+		exactOn := func(in ssa.Instruction, want bool) (bool, int) {
+			hit, n := false, 0
+			for _, ec := range edgeConds(in.Block()) {
+				if x, _, isNil := nilCheck(ec.Cond); isNil && isErrorType(x.Type()) {
+					continue
+				}
+				n++
+				v, neg := unwrapNot(ec.Cond)
+				t := ec.Truth
+				if neg {
+					t = !t
+				}
+				if isFieldLoadNamed(v, "ExactMatchInput") && t == want {
+					hit = true
+				}
+			}
+			return hit, n
+		}
+		ee, en := exactOn(exactStore, true)
+		fe, fnn := exactOn(fuzzyStore, false)
+		if ee && en == 1 && fe && fnn == 1 {
+			okSel = true
+		}
 	}
 	allInstrs(fn, func(in ssa.Instruction) {
 		phi, ok := in.(*ssa.Phi)
@@ -552,9 +581,11 @@ func checkReadLoopEnqueue(c *Ctx, r *Report) {
 				}
 				all := true
 				n := 0
+				var rets []*ssa.Return
 				allInstrs(sc, func(in ssa.Instruction) {
 					if ret, isRet := in.(*ssa.Return); isRet && len(ret.Results) == 1 {
 						n++
+						rets = append(rets, ret)
 						if ok2, _ := enqueueProvenance(ret.Results[0], sc.Params[i], strip); !ok2 {
 							all = false
 						}
@@ -562,6 +593,13 @@ func checkReadLoopEnqueue(c *Ctx, r *Report) {
 				})
 				if n > 0 && all {
 					okProv = true
+				}
+				// the helper written with an early return: one return hands back the CR-free bytes where they contain
+				// no ESC, the other the stripped bytes where they do
+				if !okProv && len(rets) == 2 {
+					if enqueueProvenanceTwoReturns(rets, sc.Params[i], strip) {
+						okProv = true
+					}
 				}
 			}
 		}
@@ -759,8 +797,8 @@ func checkProcessOut(c *Ctx, r *Report) {
 		var conds []string
 		strip := false
 		for _, ec := range edgeConds(repl.Block()) {
-			if bo, isBo := ec.Cond.(*ssa.BinOp); isBo && bo.Op == token.LSS && rangeHeader(bo.X) != nil {
-				continue // exit condition of the per-line range loop
+			if bo, isBo := ec.Cond.(*ssa.BinOp); isBo && bo.Op == token.LSS && (rangeHeader(bo.X) != nil || isCountingPhi(bo.X)) {
+				continue // exit condition of the per-line range / counted loop
 			}
 			conds = append(conds, ec.Cond.String())
 			if ec.Cond == ssa.Value(fn.Params[2]) && ec.Truth {
@@ -865,7 +903,7 @@ func checkSearchDepth(c *Ctx, r *Report) {
 		}
 		ret := p.Returns[0]
 		if ret == rb {
-			if p.Assume["(len("+rb+")<="+sd+")"] == "true" {
+			if p.Lit("(len("+rb+")<="+sd+")") == "true" {
 				okWhole = true
 			}
 			continue
@@ -1083,4 +1121,72 @@ func enqueueProvenance(v, data ssa.Value, strip *ssa.Function) (bool, string) {
 		msg = "ANSI escape sequences are no longer stripped from chunks that contain an ESC"
 	}
 	return false, msg
+}
+
+// enqueueProvenanceTwoReturns: {return crFree  [guard: !Contains(crFree, ESC)],  return StripANSI(crFree)  [guard: Contains(crFree, ESC)]}
+func enqueueProvenanceTwoReturns(rets []*ssa.Return, data ssa.Value, strip *ssa.Function) bool {
+	isCRRemoval := func(x ssa.Value) bool {
+		call, ok := x.(*ssa.Call)
+		if !ok {
+			return false
+		}
+		o := CalleeObj(call)
+		if o == nil || o.Pkg() == nil || o.Pkg().Path() != "bytes" || o.Name() != "ReplaceAll" || call.Call.Args[0] != data {
+			return false
+		}
+		from, ok1 := constString(stripConv(call.Call.Args[1]))
+		to, ok2 := constString(stripConv(call.Call.Args[2]))
+		return ok1 && ok2 && from == "\r" && to == ""
+	}
+	escGuard := func(in ssa.Instruction, plain ssa.Value, want bool) bool {
+		return guardedBy(in, func(cv ssa.Value, t bool) bool {
+			call, ok := cv.(*ssa.Call)
+			if !ok || t != want {
+				return false
+			}
+			o := CalleeObj(call)
+			if o == nil || o.Name() != "Contains" {
+				return false
+			}
+			s, isS := constString(stripConv(call.Call.Args[1]))
+			return isS && s == "\x1b" && call.Call.Args[0] == plain
+		})
+	}
+	var plainRet, stripRet *ssa.Return
+	for _, ret := range rets {
+		v := ret.Results[0]
+		if isCRRemoval(v) {
+			plainRet = ret
+		} else if call, ok := v.(*ssa.Call); ok && call.Call.StaticCallee() == strip {
+			stripRet = ret
+		}
+	}
+	if plainRet == nil || stripRet == nil {
+		return false
+	}
+	plain := plainRet.Results[0]
+	if stripRet.Results[0].(*ssa.Call).Call.Args[0] != plain {
+		return false
+	}
+	return escGuard(plainRet, plain, false) && escGuard(stripRet.Results[0].(*ssa.Call), plain, true)
+}
+
+// isCountingPhi: v is the induction variable of a counted loop (phi of a constant and itself plus one).
+func isCountingPhi(v ssa.Value) bool {
+	phi, ok := v.(*ssa.Phi)
+	if !ok || len(phi.Edges) != 2 {
+		return false
+	}
+	hasConst, hasStep := false, false
+	for _, e := range phi.Edges {
+		if _, ok := constInt(e); ok {
+			hasConst = true
+		}
+		if bo, ok := e.(*ssa.BinOp); ok && bo.Op == token.ADD && bo.X == ssa.Value(phi) {
+			if k, ok := constInt(bo.Y); ok && k == 1 {
+				hasStep = true
+			}
+		}
+	}
+	return hasConst && hasStep
 }
